@@ -3,7 +3,7 @@ from __future__ import annotations
 
 import json
 
-from .. import common, gen, rowcheck, rowspec, sge
+from .. import bg, common, gen, rowcheck, rowspec, sge
 from ..runner import Ctx
 
 KINDS_KNOWN = {}
@@ -13,6 +13,10 @@ def check_results(ctx: Ctx, results):
     for d, r in results:
         if r['exit'] != 0:
             continue
+        L = None
+        if d.get('bg'):
+            # background variants: the protected sequence is in background coordinates; the independent cell-map liftover reads POS
+            L = bg.Lift(d['ref'].upper(), bg.unmasked_variants(d))
         for t in r['targetons']:
             if not t['sge']:
                 # cDNA: no VCF files at all
@@ -38,7 +42,11 @@ def check_results(ctx: Ctx, results):
                 if near_pam or not m['ref'] or not m['alt']:
                     ctx.nontriv((common.sha(d), name, row['oligo_name'], row['mut_position'], row['new']))
                 ctx.count('vt:' + ('ins' if not row['ref'] else 'del' if not row['new'] else 'sub') + (':pam' if near_pam else ''))
-                for kind, msg in rowspec.check_vcf(row, r1, r2, t['seq']['prev'], t['alt']['prev'], t['rc']):
+                if L is not None:
+                    if L.ref_touches(int(row['mut_position']), len(row['ref'])):
+                        continue        # whether such a row exists at all is C06's relation (and its known finding)
+                    ctx.count('rows_under_background')
+                for kind, msg in rowspec.check_vcf(row, r1, r2, t['seq']['prev'], t['alt']['prev'], t['rc'], lift=L, bg=L is not None):
                     pam_pos = sorted(p['pos'] for p in (d.get('pam') or []))
                     ctx.violation('spec_violation', f'{kind}: {msg}',
                                   {'surface': 'file', 'kind': kind, 'design': d, 'targeton': name, 'metarow': m, 'vcf_ref': r1, 'vcf_pam': r2,
@@ -56,6 +64,17 @@ def files(ctx: Ctx):
             d['opts']['max_length'] = L
             d['opts']['min_length'] = L - 1
     designs += [gen.gen_cdna(ctx.rng, {}) for _ in range(n // 10)]
+    # with background variants (SNVs anywhere, indels in non-coding sequence, upstream of and inside the targetons): the PAM VCF is read
+    # through the liftover
+    bfocus = dict(focus, p_bg=1.0, p_mask=0.2, bg_upstream=True, bg_kinds=['snv', 'ins', 'ins', 'del', 'del', 'mnv'], p_custom=0.8)
+    nb = 0
+    for _ in range(20 * n):
+        if nb >= n // 3:
+            break
+        d = gen.gen_sge(ctx.rng, bfocus)
+        if d.get('bg') and bg.lift_design(d) is not None:
+            designs.append(d)
+            nb += 1
     results = rowcheck.run_designs(designs)
     rowcheck.model_rows(ctx, results, 'VCF records', fields=['vcf_ref', 'vcf_pam', 'included'])
     check_results(ctx, results)
@@ -81,7 +100,9 @@ def run(ctx: Ctx):
     return {'rule': 'S-file: random SGE designs rich in PAM edits (1-4 per targeton, any codon position relative to the mutations), custom insertions/deletions/'
                     'delins and length limits that exclude some rows: every row compared with the Coq model of the to_csv loop body on the recorded MetaRow (both VCF '
                     'records, inclusion) and checked by an independent oracle: one record per included row per file, SGE_OLIGO/SGE_SRC/alias/id tags, non-empty '
-                    'alleles, REF = sequence at POS (incl. the preceding nucleotide), REF->ALT reproduces the oligo / the mutated reference, SGE_REF iff different. '
+                    'alleles, REF = sequence at POS (incl. the preceding nucleotide), REF->ALT reproduces the oligo / the mutated reference, SGE_REF iff different; '
+                    'a third as many designs carry background variants (SNVs anywhere, non-coding indels upstream of and inside the targetons): there POS is a '
+                    'reference coordinate and the PAM record is read in the protected sequence through an independent cell-map liftover. '
                     'Non-trivial = indel row or row sharing a codon with a PAM edit.'}
 
 
